@@ -29,7 +29,9 @@ def valid(lp, np_):
 class GenBinding:
     def __init__(self, lp="eg", np_=None, labelmap="int", seed=9, n_jobs=1, backend=None, data_seed=5, dims=2, bin_name="none",
                  epsilon=0.0, container="ndarray", nrows=10, perm_seed=None, shift=0, scale=1, preconv=None, addarm_bin=None,
-                 binary_rewards=False):
+                 binary_rewards=False, lin_scale=False, runit=1):
+        self.runit = runit                        # rewards are this many units (0.5: halves occur among whole numbers)
+        self.lin_scale = lin_scale                # linear policies standardise the contexts (scale=True)
         self.binary_rewards = binary_rewards      # rewards in {0, 1} whatever the binarizer set-up
         self.preconv = preconv          # rewards are converted by this binarizer in the binding (no binarizer installed)
         self.addarm_bin = addarm_bin    # add_arm installs this binarizer (or, with preconv, the binding switches to it)
@@ -80,7 +82,7 @@ class GenBinding:
                 "backend": self.backend, "dims": self.dims, "bin": self.bin_name, "epsilon": self.epsilon,
                 "container": self.container, "data_seed": self.data_seed, "perm_seed": self.perm_seed,
                 "shift": self.shift, "scale": self.scale, "preconv": self.preconv, "addarm_bin": self.addarm_bin,
-                "binary_rewards": self.binary_rewards}
+                "binary_rewards": self.binary_rewards, "lin_scale": self.lin_scale, "runit": self.runit}
 
     def probe_labels(self, mab, full):
         first = self.spec_label(mab.arms[0])
@@ -103,7 +105,8 @@ class GenBinding:
         from mabwiser.mab import LearningPolicy as LP, NeighborhoodPolicy as NP
         lp = {"eg": LP.EpsilonGreedy(self.epsilon), "ucb1": LP.UCB1(1.25), "softmax": LP.Softmax(2), "pop": LP.Popularity(),
               "ts": LP.ThompsonSampling(binarizers.BY_NAME[self.bin_name]), "random": LP.Random(),
-              "lin-ucb": LP.LinUCB(1.25, 0.5), "lin-ts": LP.LinTS(0.5, 2.0), "lin-greedy": LP.LinGreedy(self.epsilon, 1.0)}[self.lp]
+              "lin-ucb": LP.LinUCB(1.25, 0.5, self.lin_scale), "lin-ts": LP.LinTS(0.5, 2.0, self.lin_scale),
+              "lin-greedy": LP.LinGreedy(self.epsilon, 1.0, self.lin_scale)}[self.lp]
         np_ = {None: None, "radius": NP.Radius(2.0, "cityblock"), "knearest": NP.KNearest(2, "chebyshev"),
                "lsh": NP.LSHNearest(2, 2), "clusters": NP.Clusters(2), "tree": NP.TreeBandit(),
                "clusters-mb": NP.Clusters(2, True)}[self.np]
@@ -139,11 +142,15 @@ class GenBinding:
             random.Random(self.perm_seed * 1000 + len(ids) + ids[0]).shuffle(rows)
         d = [self.lm[a] for a, _, _ in rows]
         binary = self.lp == "ts" and self.bin_name == "none" and not self.preconv
-        r = [int(x) for _, x, _ in rows] if binary else [float(x) * self.scale + self.shift for _, x, _ in rows]
+        r = [int(x) for _, x, _ in rows] if binary else [float(x) * self.runit * self.scale + self.shift for _, x, _ in rows]
         c = [[float(v) for v in x] for _, _, x in rows]
         kind = self.container
         if kind == "list":
             pass
+        elif kind == "mixed":
+            # plain Python lists as a caller writes them: whole numbers as ints, the others as floats, in one list
+            r = [int(v) if float(v) == int(v) else float(v) for v in r]
+            c = [[int(v) if float(v) == int(v) else float(v) for v in row] for row in c]
         elif kind == "pandas":
             import pandas as pd
             d, r, c = pd.Series(d), pd.Series(r), pd.DataFrame(c)
